@@ -108,6 +108,8 @@ Plan parse_plan(const std::string &text) {
             p.cantxq = kv.u64("cantxq", 0);
             p.soak = kv.u64("soak", 0);
             p.lstack = kv.u64("lstack", 0);
+            p.argorder = kv.u64("argorder", 0);
+            p.stackfill = (int)kv.u64("stackfill", 0xA5);
         } else if (kv.op == "can") {
             CanW w;
             w.t = kv.u64("t");
@@ -334,14 +336,24 @@ static void setup_nodes(RunState &rs) {
     auto add = [&](std::vector<std::string> &v, std::initializer_list<const char *> l) { for (auto s : l) v.push_back(s); };
     std::string mtt = std::to_string(p.mtt);
     if (p.scen == "tunnel" || p.scen == "can") {
+        // option groups; their order on the command line is seeded (any order is a valid invocation)
+        std::vector<std::vector<std::string>> tg, lg;
+        if (p.tscf) tg.push_back({"-t"});
+        if (p.udp) { tg.push_back({"-u"}); tg.push_back({"--dst-nw-addr", "10.0.0.2:17220"}); lg.push_back({"-u"}); lg.push_back({"-p", "17220"}); }
+        else { tg.push_back({"-i", "eth0"}); tg.push_back({"-d", kMacStream}); lg.push_back({"-i", "eth0"}); lg.push_back({"-d", kMacStream}); }
+        if (p.fd) { tg.push_back({"--fd"}); lg.push_back({"--fd"}); }
+        tg.push_back({"-c", std::to_string(p.count)});
+        tg.push_back({"--canif", "vcan0"});
+        lg.push_back({"--canif", "vcan1"});
+        if (p.argorder) {
+            sim::Rng ar(sim::mix64(p.rseed, 0xA26C));
+            for (auto *g : {&tg, &lg})
+                for (size_t i = g->size(); i > 1; i--) std::swap((*g)[i - 1], (*g)[ar.below(i)]);
+            w.count("cfg.shuffled_option_order");
+        }
         std::vector<std::string> ta, la;
-        if (p.tscf) add(ta, {"-t"});
-        if (p.udp) { add(ta, {"-u", "--dst-nw-addr", "10.0.0.2:17220"}); add(la, {"-u", "-p", "17220"}); }
-        else { add(ta, {"-i", "eth0", "-d", kMacStream}); add(la, {"-i", "eth0", "-d", kMacStream}); }
-        if (p.fd) { add(ta, {"--fd"}); add(la, {"--fd"}); }
-        ta.push_back("-c"); ta.push_back(std::to_string(p.count));
-        add(ta, {"--canif", "vcan0"});
-        add(la, {"--canif", "vcan1"});
+        for (auto &g : tg) for (auto &x : g) ta.push_back(x);
+        for (auto &g : lg) for (auto &x : g) la.push_back(x);
         rs.talker = w.add_node("talker", "acf-can-talker", PICK(acf_can_talker_main), ta, false);
         rs.talker_argv = ta;
         rs.listener = w.add_node("listener", "acf-can-listener", PICK(acf_can_listener_main), la, true);
@@ -494,6 +506,7 @@ void exec_plan(const std::string &text, bool verbose) {
     stdout = so;
     stderr = se;
 
+    if (p.stackfill != 0xA5) { sim::Tasks::refill_stacks((uint8_t)p.stackfill); w.count("cfg.stack_fill_other_than_A5"); }
     setup_nodes(rs);
     if (p.lstack >= 64 && p.lstack * 1024 < sim::Tasks::kStackSize && rs.listener >= 0) {
         // the listener runs on a smaller stack (real deployments configure 64-256 KiB for such daemons): the unused lower part becomes inaccessible
